@@ -712,17 +712,26 @@ class Driver:
             # kind of instance argument for both) -> no preference expressed
             return cands
         # bool arguments also fit integer parameters: only equal-rank alternatives remain, no preference expressed
-        ds = [dist(f, s) for f, s in cands]
-        keep = []
-        for i, (f, s) in enumerate(cands):
-            dominated = False
-            for j, (g, s2) in enumerate(cands):
-                if i == j or len(ds[i]) != len(ds[j]):
-                    continue
-                if all(a >= b for a, b in zip(ds[i], ds[j])) and any(a > b for a, b in zip(ds[i], ds[j])):
-                    dominated = True
-            if not dominated:
-                keep.append((f, s))
+        def better(i, j):
+            """overload i is a better match than j: at every object position its class equals or derives from j's, and
+            differs somewhere (C++ ranks derived-to-base conversions only along one inheritance path)"""
+            (f, s), (g, s2) = cands[i], cands[j]
+            if len(f["params"]) != len(g["params"]):
+                return False
+            strict = False
+            for a_, p, p2 in zip(s, f["params"], g["params"]):
+                if a_ is not None and a_.c == "obj" and p["type"]["k"] == "obj" and p2["type"]["k"] == "obj":
+                    c1, c2 = p["type"]["cls"], p2["type"]["cls"]
+                    if c1 == c2:
+                        continue
+                    if self.isa(c1, c2):
+                        strict = True
+                    else:
+                        return False
+                elif p["type"] != p2["type"]:
+                    return False
+            return strict
+        keep = [cands[i] for i in range(len(cands)) if not any(better(j, i) for j in range(len(cands)) if j != i)]
         return keep
 
     def snapshot(self, recv, args, kw):
@@ -820,9 +829,16 @@ class Driver:
                 # the call was rejected for another reason changed no object
                 ti = int(fl.get("this", 0))
                 t0 = cf_["params"][0]["type"]
-                if ti in created and ti in destroyed and any(
-                        a_.c != "obj" and self.acc(a_, t0) == "yes" and self.logtok(a_, t0) == fl.get("a0")
-                        for a_ in list(args) + list(kw.values())):
+                def same_value(a_):
+                    if a_.c in ("obj", "tuple", "junk", "none"):
+                        return False
+                    if t0["k"] == "float" and a_.c in ("int", "bool", "float"):
+                        try:
+                            return dbits(f32(float(a_.v)) if t0["c"] == "float" else float(a_.v)) == fl.get("a0")
+                        except OverflowError:
+                            return False
+                    return self.acc(a_, t0) == "yes" and self.logtok(a_, t0) == fl.get("a0")
+                if ti in created and ti in destroyed and any(same_value(a_) for a_ in list(args) + list(kw.values())):
                     main.remove(e)
                     tol.append(e)
                     self.count("coercion_temporaries")
@@ -904,6 +920,13 @@ class Driver:
                 else:
                     bads = self.neg_reason(sts, args, kw, recv)
                     m_ = bads.startswith("arg=instance-const,param=obj:")
+                    f_ran = next((f for f in fns if main and f["eid"] == main[-1][0]), None)
+                    if f_ran is not None and not m_:
+                        for s_, p_ in zip(self.bind(f_ran, args, kw) or [], f_ran["params"]):
+                            if s_ is not None and s_.c == "obj" and s_.t.const and p_["type"]["k"] == "obj" and \
+                                    p_["type"]["mode"] in ("ptr", "ref"):
+                                bads = "arg=instance-const,param=" + tkind(p_["type"])
+                                m_ = True
                     if m_ and main and any(v_[0] == "o" and v_[1:].isdigit() and int(v_[1:]) in created
                                             for k_, v_ in main[-1][1].items() if k_.startswith("a") and v_):
                         self.bad("const-argument-passed-as-copy:" + bads.split(",")[1], call=callsig, trace=[l for _, _, l in ev][:4])
@@ -963,8 +986,10 @@ class Driver:
                         self.bad(f"no-overflowerror:param={tkind(oorp[0]['type'])}", call=callsig, trace=[l for _, _, l in ev][:6],
                                  note="taken by an overload whose parameter cannot hold the value, although another overload matches")
                         rans = None
-                    elif rsl and all(s_ is None or self.acc(s_, p_["type"]) == "yes" or
-                                   (s_.c == "int" and p_["type"]["k"] == "float") for s_, p_ in zip(rsl, ran[0]["params"])):
+                    elif rsl and any(s_ is not None and s_.c == "int" and p_["type"]["k"] == "float"
+                                     for s_, p_ in zip(rsl, ran[0]["params"])) and \
+                            all(s_ is None or self.acc(s_, p_["type"]) == "yes" or
+                                (s_.c == "int" and p_["type"]["k"] == "float") for s_, p_ in zip(rsl, ran[0]["params"])):
                         # an overload tried earlier took a Python int for a float/double parameter although another
                         # overload matches the integer exactly
                         self.bad("wrong-overload:int-taken-as-float-by-earlier-overload", call=callsig,
